@@ -359,6 +359,48 @@ def selectAll (t : RefTable) (query : List Nat) (parents : List Parent)
     .ok (parents.zipIdx.map (fun (p, i) =>
       selectParent th p.leaves (isBehemoth t.pairs.length cutoff p.leaves) p.n (ties i)))
 
+/-! ### several reference-marker files (`create_marker_gene_lookup_from_mapping`) -/
+
+/-- the loop `for pth in this_census: if pth_max is None or this_census[pth] > n_max`:
+`best` = (index, census) of the current maximum -/
+def assignFileGo : List Nat → Nat → Option (Nat × Nat) → Option (Nat × Nat)
+  | [], _, best => best
+  | c :: cs, i, none => assignFileGo cs (i + 1) (some (i, c))
+  | c :: cs, i, some (j, m) =>
+    if m < c then assignFileGo cs (i + 1) (some (i, c))
+    else assignFileGo cs (i + 1) (some (j, m))
+
+/-- index of the reference-marker file a parent is selected on, given the
+number of cells under the parent in each file's statistics (file order): the
+largest census, the first file on a tie -/
+def assignFile (census : List Nat) : Option Nat :=
+  (assignFileGo census 0 none).map (·.1)
+
+/-- one parent of the multi-file entry point: pairs, target, census per file -/
+structure MParent where
+  leaves : List Nat
+  n : Nat
+  census : List Nat
+  deriving Repr, BEq, DecidableEq, Inhabited
+
+/-- `create_marker_gene_lookup_from_ref_list` with several files over one
+taxonomy: every parent is selected, with the WHOLE query, on the table of the
+file it is assigned to (`create_raw_marker_gene_lookup(input_cache_path=...,
+parent_list=...)`) -/
+def selectMulti (tables : List RefTable) (query : List Nat) (parents : List MParent)
+    (cutoff : Nat) (ties : Nat → Tie) : List (Except Err (List Nat)) :=
+  parents.zipIdx.map (fun (p, i) =>
+    match assignFile p.census with
+    | none => .error .badPair
+    | some f =>
+      match tables[f]? with
+      | none => .error .badPair
+      | some t =>
+        match thin t query with
+        | .error e => .error e
+        | .ok th =>
+          selectParent th p.leaves (isBehemoth t.pairs.length cutoff p.leaves) p.n (ties i))
+
 /-! ### oracles -/
 
 /-- replay oracle: the k-th pick is the k-th entry of the recorded trace
